@@ -253,7 +253,7 @@ def main(out_path):
 
 if __name__ == "__main__":
     try:
-        main(sys.argv[1] if len(sys.argv) > 1 else "/verif/coq/Generated/Constants.v")
+        main(sys.argv[1] if len(sys.argv) > 1 else os.path.join(os.path.dirname(os.path.dirname(os.path.abspath(__file__))), "coq", "Generated", "Constants.v"))
     except ExportError as e:
         print(f"EXPORT-ERROR: {e}")
         sys.exit(2)
